@@ -69,13 +69,17 @@ LoopCaveat:
 		case caveat == Gen:
 			verified |= 1
 		case strings.HasPrefix(caveat, UserPrefix):
-			if caveat[len(UserPrefix):] == userID {
-				verified |= 2
+			// Every caveat has to hold: anyone holding a token can append
+			// further caveats to it, which may only ever narrow the token.
+			if caveat[len(UserPrefix):] != userID {
+				return errors.New("Token was issued for a different user")
 			}
+			verified |= 2
 		case strings.HasPrefix(caveat, TimePrefix):
-			if verifyExpiry(caveat[len(TimePrefix):], now) {
-				verified |= 4
+			if !verifyExpiry(caveat[len(TimePrefix):], now) {
+				return errors.New("Token has expired")
 			}
+			verified |= 4
 		default:
 			verified |= 8
 			break LoopCaveat
